@@ -10,103 +10,140 @@ use crate::cap::{CapMap, CapSet};
 use crate::model::*;
 use crate::sym::{Prim, any, assume};
 
-pub trait Lat: Sized + Clone {
+/// Reading a value back into the independent model.
+pub trait HasModel: Sized + Clone {
     type M: Model;
-    fn sym() -> Self;
     fn model(&self) -> Self::M;
 }
+/// Building a fully symbolic value (lengths included) — no-heap types only.
+pub trait Lat: HasModel {
+    fn sym() -> Self;
+}
 
-impl<T: Prim + Bounded> Lat for Max<T> {
+impl<T: Prim + Bounded> HasModel for Max<T> {
     type M = MMax<T>;
-    fn sym() -> Self {
-        Max::new(any())
-    }
     fn model(&self) -> MMax<T> {
         MMax(*self.as_reveal_ref())
     }
 }
-impl<T: Prim + Bounded> Lat for Min<T> {
-    type M = MMin<T>;
+impl<T: Prim + Bounded> Lat for Max<T> {
     fn sym() -> Self {
-        Min::new(any())
+        Max::new(any())
     }
+}
+impl<T: Prim + Bounded> HasModel for Min<T> {
+    type M = MMin<T>;
     fn model(&self) -> MMin<T> {
         MMin(*self.as_reveal_ref())
     }
 }
-impl Lat for () {
+impl<T: Prim + Bounded> Lat for Min<T> {
+    fn sym() -> Self {
+        Min::new(any())
+    }
+}
+impl HasModel for () {
     type M = MUnit;
-    fn sym() -> Self {}
     fn model(&self) -> MUnit {
         MUnit
     }
 }
-impl<L: Lat> Lat for WithBot<L> {
+impl Lat for () {
+    fn sym() -> Self {}
+}
+impl<L: HasModel> HasModel for WithBot<L> {
     type M = MBot<L::M>;
-    fn sym() -> Self {
-        if any::<bool>() { WithBot::new(Some(L::sym())) } else { WithBot::new(None) }
-    }
     fn model(&self) -> Self::M {
         MBot(self.as_reveal_ref().map(|x| x.model()))
     }
 }
-impl<L: Lat> Lat for WithTop<L> {
-    type M = MTop<L::M>;
+impl<L: Lat> Lat for WithBot<L> {
     fn sym() -> Self {
-        if any::<bool>() { WithTop::new(Some(L::sym())) } else { WithTop::new(None) }
+        if any::<bool>() { WithBot::new(Some(L::sym())) } else { WithBot::new(None) }
     }
+}
+impl<L: HasModel> HasModel for WithTop<L> {
+    type M = MTop<L::M>;
     fn model(&self) -> Self::M {
         MTop(self.as_reveal_ref().map(|x| x.model()))
     }
 }
-impl<A: Lat, B: Lat> Lat for Pair<A, B> {
-    type M = (A::M, B::M);
+impl<L: Lat> Lat for WithTop<L> {
     fn sym() -> Self {
-        Pair::new(A::sym(), B::sym())
+        if any::<bool>() { WithTop::new(Some(L::sym())) } else { WithTop::new(None) }
     }
+}
+impl<A: HasModel, B: HasModel> HasModel for Pair<A, B> {
+    type M = (A::M, B::M);
     fn model(&self) -> Self::M {
         (self.a.model(), self.b.model())
     }
 }
-impl<K: Lat, V: Lat> Lat for DomPair<K, V> {
-    type M = MDom<K::M, V::M>;
+impl<A: Lat, B: Lat> Lat for Pair<A, B> {
     fn sym() -> Self {
-        DomPair::new(K::sym(), V::sym())
+        Pair::new(A::sym(), B::sym())
     }
+}
+impl<K: HasModel, V: HasModel> HasModel for DomPair<K, V> {
+    type M = MDom<K::M, V::M>;
     fn model(&self) -> Self::M {
         let (k, v) = self.as_reveal_ref();
         MDom(k.model(), v.model())
     }
 }
-impl<T: Prim + Copy + Eq> Lat for Conflict<T> {
-    type M = MConf<T>;
+impl<K: Lat, V: Lat> Lat for DomPair<K, V> {
     fn sym() -> Self {
-        if any::<bool>() { Conflict::new(Some(any())) } else { Conflict::new(None) }
+        DomPair::new(K::sym(), V::sym())
     }
+}
+impl<T: Prim + Copy + Eq> HasModel for Conflict<T> {
+    type M = MConf<T>;
     fn model(&self) -> Self::M {
         MConf(self.as_reveal_ref().copied())
     }
 }
+impl<T: Prim + Copy + Eq> Lat for Conflict<T> {
+    fn sym() -> Self {
+        if any::<bool>() { Conflict::new(Some(any())) } else { Conflict::new(None) }
+    }
+}
 /// Point lattice: only equal values may ever be merged, so as a lattice it is the one-element
 /// lattice; the panic on unequal values is checked by its own harnesses.
-impl Lat for Point<u8, ()> {
+impl HasModel for Point<u8, ()> {
     type M = MUnit;
-    fn sym() -> Self {
-        Point::new(any())
-    }
     fn model(&self) -> MUnit {
         MUnit
+    }
+}
+impl Lat for Point<u8, ()> {
+    fn sym() -> Self {
+        Point::new(any())
     }
 }
 
 // ------------------------------------------------------------------------------------------- sets
 /// Model capacity for every set representation (so cross-representation laws share one model type).
-pub const MS: usize = 8;
+pub const MS: usize = 6;
 
 /// Number of symbolic elements a `CapSet<_, CAP>`-backed value gets: three such values must fit
 /// into one receiver (associativity harness), so CAP/3.
-impl<const CAP: usize> Lat for SetUnion<CapSet<u8, CAP>> {
+impl<const CAP: usize> HasModel for SetUnion<CapSet<u8, CAP>> {
     type M = MSet<MS>;
+    fn model(&self) -> Self::M {
+        // the CapSet is duplicate-free by construction: plain copy
+        let mut m = MSet::empty();
+        let s = self.as_reveal_ref();
+        let mut i = 0;
+        while i < s.len {
+            m.items[i] = s.items[i].unwrap();
+            i += 1;
+        }
+        assert!(s.len <= MS, "MSet capacity (harness sizing error)");
+        m.len = s.len;
+        m
+    }
+}
+impl<const CAP: usize> Lat for SetUnion<CapSet<u8, CAP>> {
     fn sym() -> Self {
         let n: usize = any();
         assume(n <= CAP / 3);
@@ -124,21 +161,14 @@ impl<const CAP: usize> Lat for SetUnion<CapSet<u8, CAP>> {
         }
         SetUnion::new(s)
     }
+}
+impl<const N: usize> HasModel for SetUnion<ArraySet<u8, N>> {
+    type M = MSet<MS>;
     fn model(&self) -> Self::M {
-        let mut m = MSet::empty();
-        let s = self.as_reveal_ref();
-        let mut i = 0;
-        while i < CAP {
-            if i < s.len {
-                m.add(s.items[i].unwrap());
-            }
-            i += 1;
-        }
-        m
+        MSet::from_iter(self.as_reveal_ref().0.iter())
     }
 }
 impl<const N: usize> Lat for SetUnion<ArraySet<u8, N>> {
-    type M = MSet<MS>;
     fn sym() -> Self {
         let a: [u8; N] = core::array::from_fn(|_| any());
         // documented precondition: array-backed sets hold distinct items (len() is the slot count)
@@ -153,26 +183,22 @@ impl<const N: usize> Lat for SetUnion<ArraySet<u8, N>> {
         }
         SetUnion::new(ArraySet(a))
     }
-    fn model(&self) -> Self::M {
-        MSet::from_iter(self.as_reveal_ref().0.iter())
-    }
 }
-impl Lat for SetUnion<SingletonSet<u8>> {
+impl HasModel for SetUnion<SingletonSet<u8>> {
     type M = MSet<MS>;
-    fn sym() -> Self {
-        SetUnion::new(SingletonSet(any()))
-    }
     fn model(&self) -> Self::M {
         let mut m = MSet::empty();
         m.add(self.as_reveal_ref().0);
         m
     }
 }
-impl Lat for SetUnion<OptionSet<u8>> {
-    type M = MSet<MS>;
+impl Lat for SetUnion<SingletonSet<u8>> {
     fn sym() -> Self {
-        SetUnion::new(OptionSet(if any::<bool>() { Some(any()) } else { None }))
+        SetUnion::new(SingletonSet(any()))
     }
+}
+impl HasModel for SetUnion<OptionSet<u8>> {
+    type M = MSet<MS>;
     fn model(&self) -> Self::M {
         let mut m = MSet::empty();
         if let Some(x) = self.as_reveal_ref().0 {
@@ -181,12 +207,29 @@ impl Lat for SetUnion<OptionSet<u8>> {
         m
     }
 }
+impl Lat for SetUnion<OptionSet<u8>> {
+    fn sym() -> Self {
+        SetUnion::new(OptionSet(if any::<bool>() { Some(any()) } else { None }))
+    }
+}
 
 // ------------------------------------------------------------------------------------------- maps
-pub const MM: usize = 6;
+pub const MM: usize = 4;
 
-impl<V: Lat, const CAP: usize> Lat for MapUnion<CapMap<u8, V, CAP>> {
+impl<V: HasModel, const CAP: usize> HasModel for MapUnion<CapMap<u8, V, CAP>> {
     type M = MMap<V::M, MM>;
+    fn model(&self) -> Self::M {
+        let mut r = MMap::empty();
+        let m = self.as_reveal_ref();
+        let mut i = 0;
+        while i < m.len {
+            r.put(m.keys[i].unwrap(), m.vals[i].as_ref().unwrap().model());
+            i += 1;
+        }
+        r
+    }
+}
+impl<V: Lat, const CAP: usize> Lat for MapUnion<CapMap<u8, V, CAP>> {
     fn sym() -> Self {
         let n: usize = any();
         assume(n <= CAP / 3);
@@ -204,21 +247,21 @@ impl<V: Lat, const CAP: usize> Lat for MapUnion<CapMap<u8, V, CAP>> {
         }
         MapUnion::new(m)
     }
+}
+impl<V: HasModel, const N: usize> HasModel for MapUnion<ArrayMap<u8, V, N>> {
+    type M = MMap<V::M, MM>;
     fn model(&self) -> Self::M {
         let mut r = MMap::empty();
         let m = self.as_reveal_ref();
         let mut i = 0;
-        while i < CAP {
-            if i < m.len {
-                r.put(m.keys[i].unwrap(), m.vals[i].as_ref().unwrap().model());
-            }
+        while i < N {
+            r.put(m.keys[i], m.vals[i].model());
             i += 1;
         }
         r
     }
 }
 impl<V: Lat, const N: usize> Lat for MapUnion<ArrayMap<u8, V, N>> {
-    type M = MMap<V::M, MM>;
     fn sym() -> Self {
         let keys: [u8; N] = core::array::from_fn(|_| any());
         let mut i = 0;
@@ -233,22 +276,9 @@ impl<V: Lat, const N: usize> Lat for MapUnion<ArrayMap<u8, V, N>> {
         let vals: [V; N] = core::array::from_fn(|_| V::sym());
         MapUnion::new(ArrayMap { keys, vals })
     }
-    fn model(&self) -> Self::M {
-        let mut r = MMap::empty();
-        let m = self.as_reveal_ref();
-        let mut i = 0;
-        while i < N {
-            r.put(m.keys[i], m.vals[i].model());
-            i += 1;
-        }
-        r
-    }
 }
-impl<V: Lat> Lat for MapUnion<SingletonMap<u8, V>> {
+impl<V: HasModel> HasModel for MapUnion<SingletonMap<u8, V>> {
     type M = MMap<V::M, MM>;
-    fn sym() -> Self {
-        MapUnion::new(SingletonMap(any(), V::sym()))
-    }
     fn model(&self) -> Self::M {
         let mut r = MMap::empty();
         let m = self.as_reveal_ref();
@@ -256,15 +286,152 @@ impl<V: Lat> Lat for MapUnion<SingletonMap<u8, V>> {
         r
     }
 }
-impl<V: Lat> Lat for MapUnion<OptionMap<u8, V>> {
-    type M = MMap<V::M, MM>;
+impl<V: Lat> Lat for MapUnion<SingletonMap<u8, V>> {
     fn sym() -> Self {
-        MapUnion::new(OptionMap(if any::<bool>() { Some((any(), V::sym())) } else { None }))
+        MapUnion::new(SingletonMap(any(), V::sym()))
     }
+}
+impl<V: HasModel> HasModel for MapUnion<OptionMap<u8, V>> {
+    type M = MMap<V::M, MM>;
     fn model(&self) -> Self::M {
         let mut r = MMap::empty();
         if let Some((k, v)) = &self.as_reveal_ref().0 {
             r.put(*k, v.model());
+        }
+        r
+    }
+}
+impl<V: Lat> Lat for MapUnion<OptionMap<u8, V>> {
+    fn sym() -> Self {
+        MapUnion::new(OptionMap(if any::<bool>() { Some((any(), V::sym())) } else { None }))
+    }
+}
+
+// ---------------------------------------------------------------------- concrete-length builders
+/// `SetUnion<CapSet>` with exactly `n` distinct symbolic elements (length concrete, contents symbolic).
+pub fn set_of<const CAP: usize>(n: usize) -> SetUnion<CapSet<u8, CAP>> {
+    let mut s = CapSet::<u8, CAP>::default();
+    let mut i = 0;
+    while i < n {
+        let x: u8 = any();
+        assume(!s.has(&x));
+        s.items[i] = Some(x);
+        s.len = i + 1;
+        i += 1;
+    }
+    SetUnion::new(s)
+}
+/// `MapUnion<CapMap>` with exactly `n` distinct symbolic keys and symbolic values.
+pub fn map_of<V: Lat, const CAP: usize>(n: usize) -> MapUnion<CapMap<u8, V, CAP>> {
+    let mut m = CapMap::<u8, V, CAP>::default();
+    let mut i = 0;
+    while i < n {
+        let k: u8 = any();
+        assume(m.pos(&k).is_none());
+        m.keys[i] = Some(k);
+        m.vals[i] = Some(V::sym());
+        m.len = i + 1;
+        i += 1;
+    }
+    MapUnion::new(m)
+}
+/// `MapUnion<CapMap>` with the given concrete keys and symbolic values.
+pub fn map_keys<V: Lat, const CAP: usize>(keys: &[u8]) -> MapUnion<CapMap<u8, V, CAP>> {
+    let mut m = CapMap::<u8, V, CAP>::default();
+    let mut i = 0;
+    while i < keys.len() {
+        m.keys[i] = Some(keys[i]);
+        m.vals[i] = Some(V::sym());
+        m.len = i + 1;
+        i += 1;
+    }
+    MapUnion::new(m)
+}
+
+// ------------------------------------------------------------------ shape-concrete builders (maps)
+pub type WbC = WithBot<Conflict<u8>>;
+/// non-bottom map value with symbolic content (`Conflict` is never bottom)
+pub fn wb_some() -> WbC {
+    WithBot::new(Some(Conflict::<u8>::sym()))
+}
+/// bottom map value
+pub fn wb_none() -> WbC {
+    WithBot::new(None)
+}
+pub fn capmap_of<const CAP: usize>(ents: &[(u8, WbC)]) -> MapUnion<CapMap<u8, WbC, CAP>> {
+    let mut m = CapMap::<u8, WbC, CAP>::default();
+    let mut i = 0;
+    while i < ents.len() {
+        m.keys[i] = Some(ents[i].0);
+        m.vals[i] = Some(ents[i].1);
+        m.len = i + 1;
+        i += 1;
+    }
+    MapUnion::new(m)
+}
+pub fn capmap_sets(ents: &[(u8, SetUnion<CapSet<u8, 4>>)]) -> MapUnion<CapMap<u8, SetUnion<CapSet<u8, 4>>, 4>> {
+    let mut m = CapMap::<u8, SetUnion<CapSet<u8, 4>>, 4>::default();
+    let mut i = 0;
+    while i < ents.len() {
+        m.keys[i] = Some(ents[i].0);
+        m.vals[i] = Some(ents[i].1);
+        m.len = i + 1;
+        i += 1;
+    }
+    MapUnion::new(m)
+}
+pub fn btmap_of(ents: &[(u8, WbC)]) -> MapUnion<std::collections::BTreeMap<u8, WbC>> {
+    let mut m = std::collections::BTreeMap::new();
+    let mut i = 0;
+    while i < ents.len() {
+        m.insert(ents[i].0, ents[i].1);
+        i += 1;
+    }
+    MapUnion::new(m)
+}
+/// `SetUnion<BTreeSet>` built by `n` inserts of distinct symbolic elements.
+pub fn btset_of(n: usize) -> SetUnion<std::collections::BTreeSet<u8>> {
+    let mut s = std::collections::BTreeSet::new();
+    let mut prev: [u8; 4] = [0; 4];
+    let mut i = 0;
+    while i < n {
+        let x: u8 = any();
+        let mut j = 0;
+        while j < i {
+            assume(prev[j] != x);
+            j += 1;
+        }
+        prev[i] = x;
+        s.insert(x);
+        i += 1;
+    }
+    SetUnion::new(s)
+}
+impl HasModel for SetUnion<std::collections::BTreeSet<u8>> {
+    type M = MSet<MS>;
+    fn model(&self) -> Self::M {
+        MSet::from_iter(self.as_reveal_ref().iter())
+    }
+}
+impl<V: HasModel> HasModel for MapUnion<std::collections::BTreeMap<u8, V>> {
+    type M = MMap<V::M, MM>;
+    fn model(&self) -> Self::M {
+        let mut r = MMap::empty();
+        for (k, v) in self.as_reveal_ref().iter() {
+            r.put(*k, v.model());
+        }
+        r
+    }
+}
+impl<V: HasModel> HasModel for MapUnion<lattices::collections::VecMap<u8, V>> {
+    type M = MMap<V::M, MM>;
+    fn model(&self) -> Self::M {
+        let mut r = MMap::empty();
+        let m = self.as_reveal_ref();
+        let mut i = 0;
+        while i < m.keys.len() {
+            r.put(m.keys[i], m.vals[i].model());
+            i += 1;
         }
         r
     }
